@@ -90,15 +90,33 @@ func c09Tree(k int) ast.Expr {
 		return &ast.SliceExpr{X: c09Id(), Low: c09Id()}
 	case 15: // s[:]
 		return &ast.SliceExpr{X: c09Id()}
+	case 16: // p + f(q, r)
+		return c09Bin(c09Id(), token.ADD, c09Call(c09Id(), c09Id(), c09Id()))
+	case 17: // f(p, q) + r
+		return c09Bin(c09Call(c09Id(), c09Id(), c09Id()), token.ADD, c09Id())
+	case 18: // f(p) + q
+		return c09Bin(c09Call(c09Id(), c09Id()), token.ADD, c09Id())
 	}
 	return c09Id()
 }
 
-const c09NTrees = 16
+const c09NTrees = 19
 
 // ---- structural equality of matched values ----
 
 func c09Eq(a, b any) bool {
+	// a list of exactly one element and that element alone are the same
+	// subtree (an argument list [x] recalled at a single-node position)
+	if xs, ok := a.([]ast.Expr); ok && len(xs) == 1 {
+		if _, isList := b.([]ast.Expr); !isList {
+			return c09Eq(xs[0], b)
+		}
+	}
+	if ys, ok := b.([]ast.Expr); ok && len(ys) == 1 {
+		if _, isList := a.([]ast.Expr); !isList {
+			return c09Eq(a, ys[0])
+		}
+	}
 	switch x := a.(type) {
 	case nil:
 		return b == nil
